@@ -7,6 +7,7 @@
 (*   hasModel, hasInit : BOOLEAN                                             *)
 (*   seedChains : number of rows of the engine seed (0 = a single key)       *)
 (*   chains : number of chains                                               *)
+(*   included, excluded : sets of position keys (positions_included/_excluded) *)
 EXTENDS Naturals, Sequences, FiniteSets, TLC
 
 SeqSet(s) == {s[i] : i \in 1..Len(s)}
@@ -16,6 +17,9 @@ DupQG(c) == \E i, j \in 1..Len(c.qgs) : i < j /\ c.qgs[i] = c.qgs[j]
 Ident(c, i) == IF c.kernels[i].ident = "" THEN "kernel_0" \o ToString(i - 1) ELSE c.kernels[i].ident
 DupIdent(c) == \E i, j \in 1..Len(c.kernels) : i < j /\ Ident(c, i) = Ident(c, j)
 
+\* the positions the engine will store: the kernels' keys and the additional ones, minus the excluded ones
+TrackedKeys(c) == ((UNION {c.kernels[i].keys : i \in 1..Len(c.kernels)}) \cup c.included) \ c.excluded
+
 \* the checks of build() in their order; "none" = an engine is returned
 RejectReason(c) ==
   IF DupKeys(c) THEN "duplicate_position_key"
@@ -23,11 +27,12 @@ RejectReason(c) ==
   ELSE IF DupQG(c) THEN "duplicate_generator_identifier"
   ELSE IF ~c.hasModel THEN "no_model"
   ELSE IF ~c.hasInit THEN "no_initial_values"
+  ELSE IF TrackedKeys(c) = {} /\ c.excluded # {} THEN "nothing_tracked"
   ELSE IF DupIdent(c) THEN "duplicate_kernel_identifier"
   ELSE "none"
 
 \* what a user can rely on, independent of the order of the checks
 Buildable(c) == /\ ~DupKeys(c) /\ (c.seedChains = 0 \/ c.seedChains = c.chains)
-                /\ ~DupQG(c) /\ c.hasModel /\ c.hasInit /\ ~DupIdent(c)
+                /\ ~DupQG(c) /\ c.hasModel /\ c.hasInit /\ ~DupIdent(c) /\ (TrackedKeys(c) # {} \/ c.excluded = {})
 AcceptsIffBuildable(c) == (RejectReason(c) = "none") <=> Buildable(c)
 =============================================================================
